@@ -26,6 +26,7 @@ func c07Property(t *rapid.T) {
 	defer y.N.Destroy()
 	g := newHistGen(t, x)
 	g.plainAmountsForAdmins = true
+	g.plainFor = map[string]bool{}
 	// victims of every failure cause, some of which fail after the contract already wrote state or posted events
 	g.weights = append(g.weights, "malformed", "poor", "poor", "badsig", "ibtp-badproof", "xvm", "late-failure", "late-failure", "late-failure", "late-failure", "script", "script", "script", "script", "script", "eth", "eth", "eth", "fresh-poor", "fresh-poor")
 	scriptHeavy := rapid.IntRange(0, 2).Draw(t, "scriptHeavy") == 0
@@ -206,6 +207,7 @@ func c07Property(t *rapid.T) {
 				// (its effect is checked above), only the other failed transactions are replaced
 				by.txs = append(by.txs, s)
 				exempt[sim.AccountKey(s.tx.GetFrom())] = true
+				g.plainFor[s.tx.GetFrom().String()] = true
 				continue
 			}
 			if k == nil {
@@ -214,6 +216,7 @@ func c07Property(t *rapid.T) {
 			repl := sim.RawPayloadTx(k, s.tx.GetNonce(), s.tx.GetTimeStamp(), s.tx.GetTo(), nil)
 			by.txs = append(by.txs, &txSpec{tx: repl, kind: "replacement", desc: "trivially failing replacement of: " + s.desc})
 			exempt[sim.AccountKey(s.tx.GetFrom())] = true
+			g.plainFor[s.tx.GetFrom().String()] = true
 			// never announced as a delivery
 			for c, v := range metaX.Counter {
 				for _, vi := range v.Slice {
